@@ -26,6 +26,11 @@ def meta(pid):
                 out[n] = ast.literal_eval(node.value)
     return out
 
+COMMON_SUFFIX = (' Workloads of every check also hold, where the property\'s quantifier admits them: long histories on one object '
+                 '(hundreds to thousands of operations, earlier states revisited from anywhere in the history), steps of a few '
+                 'parts per billion and values below 1e-8, spectral grids of thousands of points, documented options at '
+                 'non-default values or changed while objects live, and other input representations (integer, single-precision, '
+                 'masked, 0-d arrays); see DESIGN.md 8.5, rounds m-p.')
 hooks_path = os.path.join(ROOT, 'tools', 'hook_commits.json')
 hook_commits = json.load(open(hooks_path)) if os.path.exists(hooks_path) else []
 checks, na = [], []
@@ -42,7 +47,7 @@ for p in props:
         'evidence_file': 'evidence/%s.json' % pid,
         'replay_cmd_template': './check %s --replay {path}' % pid,
         'engine': 'vmon',
-        'level_claimed': {'category': 'exploration', 'text': m['LEVEL_TEXT'], 'design_ref': m.get('DESIGN_REF', 'DESIGN.md section 4, ' + pid)},
+        'level_claimed': {'category': 'exploration', 'text': m['LEVEL_TEXT'] + COMMON_SUFFIX, 'design_ref': m.get('DESIGN_REF', 'DESIGN.md section 4, ' + pid)},
         'level_note': m.get('LEVEL_NOTE', ''),
         'technique': m.get('TECHNIQUE', 'runtime monitoring: reference-model oracle over recorded executions'),
     })
